@@ -147,6 +147,7 @@ type Mod struct {
 	Deviations []*Deviation `json:"deviations,omitempty"`
 	Rpcs       []*Rpc       `json:"rpcs,omitempty"`
 	Notifs     []*Notif     `json:"notifs,omitempty"`
+	Raw        []string     `json:"raw,omitempty"` // further body statements written verbatim (operational command trees)
 }
 
 // ---- rendering -----------------------------------------------------------------
@@ -435,6 +436,11 @@ func (m *Mod) Text() string {
 	}
 	for _, a := range m.Augments {
 		x.augment(1, a)
+	}
+	for _, r := range m.Raw {
+		for _, l := range strings.Split(r, "\n") {
+			x.ln(1, "%s", l)
+		}
 	}
 	for _, r := range m.Rpcs {
 		x.ln(1, "rpc %s {", r.Name)
